@@ -22,6 +22,62 @@ def instances(tier):
         yield 'wide-sim10', dict(BASE, max_len=10, win_end=12), 'AlphaC08wide', 'num=40000'
 
 
+COND_INV = ['SignFormAgrees', 'OperatorsPartition', 'QuotesCarryNoMeaning', 'TruncTowardZero', 'Emit']
+
+
+def _num(v, style):
+    if v < 0:
+        return f'(0-{_num(-v, style)})'
+    return {0: str(v), 1: hex(v), 2: '$%x' % v, 3: '%' + bin(v)[2:] if v < 256 else str(v)}[style]
+
+
+def cond_text(s, style):
+    """One scenario of Cond.tla as source text: the left-hand side through #define'd symbols, the right-hand side written in
+    decimal / 0x / $ / binary, quoted or not."""
+    lhs = 'LNUM' if s['b'] == 1 else f'LNUM/{_num(s["b"], style % 2)}'
+    if s['bare']:
+        cond = f'#if {lhs}'
+    else:
+        rhs = _num(s['c'], style) if s['d'] == 1 else f'{_num(s["c"], style)}/{_num(s["d"], 0)}'
+        if s['q']:
+            rhs = f'"{rhs}"'
+        cond = f'#if {lhs} {s["op"]} {rhs}'
+    return f'#define LNUM {_num(s["a"], 0)}\n{cond}\n.byte 1\n#else\n.byte 2\n#endif\n'
+
+
+def cond_eval(e):
+    from harness import runner
+    from harness.carrier import carrier_yaml
+    s = e['s']
+    for style in range(4):
+        text = cond_text(s, style)
+        case = {'config': carrier_yaml(), 'files': {'main.asm': text}}
+        obs = runner.run_case(case)
+        want = bytes([1 if e['holds'] else 2])
+        if obs['status'] != 'ok':
+            return {'m': f'condition rejected: {(obs.get("msg") or "")[:120]}', 'case': case, 'text': text}
+        if obs['image'] != want:
+            return {'m': f'condition {text.splitlines()[1]!r} with LNUM = {s["a"]}: the integers are {e["l"]} and {e["r"]}, so it {"holds" if e["holds"] else "does not hold"}; '
+                         f'the implementation selected the {"#if" if obs["image"] == b"\x01" else "#else"} branch', 'case': case, 'text': text}
+    return None
+
+
+def run_cond(chk):
+    from harness import runner, tlc
+    res = tlc.run_tlc('MC_Cond', 'SPECIFICATION Spec\nCONSTANTS\n  Scenarios <- %s\n' % ('ScQuick' if chk.tier == 'quick' else 'ScThorough')
+                      + ''.join(f'INVARIANT {i}\n' for i in COND_INV), workers=16, timeout=3000)
+    chk.add_tlc(res)
+    outs = runner.pmap(cond_eval, res.emits)
+    for e, r in zip(res.emits, outs):
+        chk.traces += 4
+        chk.nontriv(('cond', str(e['s'])))
+        if r is not None:
+            chk.violation(r['m'], r['case'], e['holds'], r['m'], {'kind': 'cond'})
+    chk.notes['condition_scenarios'] = len(res.emits)
+    e = res.emits[len(res.emits) // 3]
+    chk.sample({'instance': 'cond', 'text': cond_text(e['s'], 1), 'holds': e['holds']})
+
+
 def run(chk):
     chk.rule = ('TLC enumerates every directive sequence up to MaxLen over AlphaC08core (#ifdef/#ifndef/#if ==/#elif over two '
                 'symbols, #else, #endif, #define with two values, two marker bytes) and AlphaC08wide (adds bare #if, a '
@@ -34,8 +90,12 @@ def run(chk):
                  'classes) and the repository programs are assembled with the reading-phase hooks on; every line event must be '
                  'AsmCore!ReadStep (Trace_Read.tla): compiled flag, mute flag, current zone, condition stack depth and branch state, and '
                  'label scope identity; corrupted traces must be rejected.')
+    chk.rule += (' Meaning of a condition (spec/Cond.tla): scenarios L op R with L = a/b through a #define, R = c/d, six operators, R quoted or not, '
+                 'numbers spelled decimal / 0x / $ / binary, and the bare form; integers are compared (each side truncated toward zero), quotes and '
+                 'spelling carry no meaning; TLC checks the sign-of-difference formulation against the direct one; the real code must select the branch Holds says.')
     chk.assumptions = ['an evaluated condition over a valueless symbol, and a bare #if over an undefined symbol, are not generated; S == v over an undefined symbol is false (documentation and code agree)',
                        'lines inside unselected branches are well-formed', 'unterminated blocks at end of file are not generated']
     chk.exhaustive = True
     asmcheck.run_instances(chk, instances(chk.tier), WHAT, KINDS)
     tracepart.run_read_traces(chk)
+    run_cond(chk)
